@@ -61,6 +61,7 @@ def cases(tier, seed):
             out.append(('seq', spec, sf, 3 if tier == 'quick' else 4))
     for k in range(11):
         out.append(('datasets', k, '', 0))
+    out.append(('independence', 0, '', 0))
     # one very large request followed by a small one (requests above 1e5 rows must advance the stream like any other)
     for spec in (('uni', ('gaussian',), ('normal', 0.0, 1.0, 30)), ('biv', 'clayton', 2.0),
                  ('gm', 'gaussian-class', zoo.GM_TABLES[2])):
@@ -120,6 +121,8 @@ def run_case(case):
         return _datasets(r, case)
     if kind == 'big-call':
         return _big_call(r, case)
+    if kind == 'independence':
+        return _independence(r, case)
     _, spec, sf, depth = case
     if spec[0] == 'vine':
         depth = min(depth, 2)
@@ -298,6 +301,39 @@ def _lab(spec):
 def _s(v):
     s = repr(v)
     return s if len(s) < 140 else s[:137] + '...'
+
+
+def _independence(r, case):
+    """The parameter-free fourth bivariate family: IF a seeded instance samples at all, it obeys the same laws (it may refuse)."""
+    from copulas.bivariate.base import Bivariate
+    from copulas.bivariate.independence import Independence
+    for how, make in (('Independence(random_state=s)', lambda s_: Independence(random_state=s_)),
+                      ("Bivariate(copula_type='independence', random_state=s)", lambda s_: Bivariate(copula_type='independence',
+                                                                                                       random_state=s_))):
+        outs = []
+        for twin in (0, 1):
+            m = make(5)
+            np.random.seed(9)
+            g0 = gstate()
+            a_ = zoo.attempt(m.sample, 4)
+            b_ = zoo.attempt(m.sample, 4)
+            r.tr(2)
+            r.ev()
+            if not isinstance(a_, zoo.Raised):
+                if gstate() != g0:
+                    r.violation('C15:biv:independence:global-state-perturbed', f'{how}: sample changed the global generator', case=case)
+                if seq.values_equal(np.asarray(a_), np.asarray(b_)):
+                    r.violation('C15:biv:independence:stream-not-advanced', f'{how}: two successive samples are identical', case=case)
+            outs.append(a_)
+        if not isinstance(outs[0], zoo.Raised) and not seq.values_equal(np.asarray(outs[0]), np.asarray(outs[1])):
+            r.violation('C15:biv:independence:twins-differ', f'{how}: two equal models with the same seed give different samples',
+                        case=case)
+        r.outcome('independence:' + ('refuses' if isinstance(outs[0], zoo.Raised) else 'samples'))
+        r.state(('independence', how))
+    r.nontriv()
+    r.hit('independence')
+    r['sample'] = {'kind': 'independence family'}
+    return r
 
 
 def _big_call(r, case):
